@@ -1,6 +1,7 @@
 """C07 - frequency hopping (45.002 6.2.3) in simulator and firmware. Model: Model/Hopping.v; theorems: Props/C07.v.
 Tie: Gen/HoppingTab.v (RNTABLE through the imported class; rn_table through the real rfch.c) + correspondence of the extracted
-model with HoppingParams.resolve and rfch_get_params (real rfch.c #included, ASan/UBSan)."""
+model with HoppingParams.resolve and rfch_get_params (real rfch.c #included, ASan/UBSan); frequency redefinition at starting time
+(Model/FreqRedef.v) against the real prim_freq.c run through the real sched_gsmtime.c / tdma_sched.c (charness/c07_freq.c)."""
 import os
 import subprocess
 
@@ -34,6 +35,144 @@ def build_c(ctx):
     if not ok:
         raise RuntimeError("C07 harness does not compile:\n" + log[-3000:])
     return path
+
+
+def build_freq_c(ctx):
+    """charness/c07_freq.c: the real prim_freq.c + rfch.c + sched_gsmtime.c + tdma_sched.c of the tree under test"""
+    stubs = os.path.join(ROOT, "charness/stubs")
+    fw = os.path.join(REPO, "src/target/firmware")
+    ok, path, log = common.cc("c07_freq", [os.path.join(ROOT, "charness/c07_freq.c"), os.path.join(LIBOSMO, "src/gsm/gsm_utils.c")],
+                              flags="-idirafter %s/include -I%s/include -I%s/include -I%s/layer1 -I%s/a/b -I%s" % (fw, LIBOSMO, REPO, fw, stubs, stubs))
+    if not ok:
+        raise RuntimeError("C07 frequency redefinition harness does not compile:\n" + log[-3000:])
+    return path
+
+
+def _rand_ma(rng, n):
+    r = rng.below(4)
+    if r == 0:
+        return [rng.range(1, 1023) for _ in range(n)]
+    if r == 1:
+        b = rng.range(1, 900)
+        return list(range(b, b + n))
+    if r == 2:
+        return [rng.range(0, 1023) | rng.choice([0, 0x8000, 0x4000, 0xc000]) for _ in range(n)]
+    return [rng.choice([1, 0x00ff, 0x0100, 0x7fff, 0x8001, 0xfffe, 0xff00 | rng.below(256), rng.range(1, 65535)]) for _ in range(n)]
+
+
+def _rand_set(rng, hop, n=None):
+    """(0, arfcn, tsc) | (1, hsn, maio, tsc, ma)"""
+    tsc = rng.below(8)
+    if not hop:
+        return (0, rng.range(1, 1023) | rng.choice([0, 0, 0x8000, 0x4000]), tsc)
+    if n is None:
+        n = rng.choice([1, 2, 3, 4, 5, 7, 8, 9, 15, 16, 17, 31, 32, 33, 48, 63, 64]) if rng.chance(1, 2) else rng.range(1, 64)
+    hsn = 0 if rng.chance(1, 6) else rng.range(1, 63)
+    return (1, hsn, rng.range(0, 63), tsc, _rand_ma(rng, n))
+
+
+def _set_ints(s):
+    return [0, s[1], s[2]] if s[0] == 0 else [1, s[1], s[2], s[3], len(s[4])] + list(s[4])
+
+
+def _set_want(s, fn):
+    if s[0] == 0:
+        return [s[1], s[2]]
+    return [s[4][spec_mai(s[1], s[2], len(s[4]), fn)], s[3]]
+
+
+def _cover_fns(rng, s):
+    """frame numbers on which every MAI 0..n-1 of the hopping set s occurs (as far as 6000 consecutive frames reach)"""
+    if s[0] == 0:
+        return [rng.below(H)]
+    n = len(s[4])
+    start = rng.choice([0, H - n // 2 - 1, rng.below(H)])
+    seen, out = set(), []
+    for k in range(6000):
+        fn = (start + k) % H
+        mai = spec_mai(s[1], s[2], n, fn)
+        if mai not in seen:
+            seen.add(mai)
+            out.append(fn)
+            if len(seen) == n:
+                break
+    return out
+
+
+def run_freq(ctx):
+    """frequency redefinition at starting time: real l1a_freq_req / l1s_freq_cmd / rfch_get_params against Model/FreqRedef.v and 45.002"""
+    binp = build_freq_c(ctx)
+    rng = ctx.rng
+    n_cases = 300 if ctx.tier == "quick" else 6000
+    cases = []
+    for k in range(n_cases):
+        r = rng.below(10)
+        # channel in use, first redefinition a, second redefinition b
+        if r < 5:
+            hops = (1, 1, 1)
+        else:
+            hops = [(1, 0, 1), (0, 1, 0), (0, 1, 1), (1, 1, 0), (0, 0, 1)][r - 5]
+        s0 = _rand_set(rng, hops[0])
+        sa = _rand_set(rng, hops[1])
+        sb = _rand_set(rng, hops[2])
+        if k % 3 == 0 and hops[1] and hops[2]:
+            # staged allocation longer than / as long as the previous one, every entry different from the previous one at its place
+            prev = s0[4] if s0[0] else []
+            na = rng.range(max(2, len(prev)), 64)
+            ma = [(((prev[i] if i < len(prev) else 0) + 1 + rng.below(500)) & 0xffff) or 1 for i in range(na)]
+            sa = (1, sa[1], sa[2], sa[3], ma)
+            nb = rng.range(2, 64)
+            mb = [(((ma[i] if i < na else 0) ^ (0x0101 + rng.below(0x300))) & 0xffff) or 1 for i in range(nb)]
+            sb = (1, sb[1], sb[2], sb[3], mb)
+        fns = _cover_fns(rng, s0)[:8] + _cover_fns(rng, sa) + _cover_fns(rng, sb) + [0, H - 1, rng.below(H)]
+        diffs = (rng.choice([5, 6, 10, 33, 200]), rng.choice([5, 7, 12, 64]))
+        fn0 = rng.choice([0, H - 3, H - 8, 42431, 42432 - 6, rng.below(H)]) if rng.chance(1, 4) else rng.below(H)
+        cases.append(dict(diffs=diffs, fn0=fn0, fns=fns, old=s0, a=sa, b=sb))
+    body = lambda c: [len(c["fns"])] + c["fns"] + _set_ints(c["old"]) + _set_ints(c["a"]) + _set_ints(c["b"])
+    inp = "\n".join(" ".join(map(str, [c["diffs"][0], c["diffs"][1], c["fn0"]] + body(c))) for c in cases) + "\n"
+    p = subprocess.run([binp], input=inp, stdout=subprocess.PIPE, stderr=subprocess.PIPE, text=True, timeout=900)
+    lines = [l for l in p.stdout.split("\n") if l.strip()]
+    if p.returncode != 0 or len(lines) != len(cases):
+        ctx.oracle_fail("frequency redefinition harness crashed (sanitizer report?)", dict(stderr=p.stderr[-1500:], answered=len(lines)), key="c07-c-crash")
+        lines += ["-1"] * (len(cases) - len(lines))
+    c_res = [[int(x) for x in l.split()] for l in lines]
+    idx = list(range(len(cases)))
+    ctx.correspond("l1s_freq_cmd", "Hopping", idx, lambda k: "w_c07_freq " + " ".join(map(str, body(cases[k]))), lambda k: c_res[k],
+                   show=lambda k: cases[k])
+    # independent oracle: 45.002 MAI on the parameters that must be in force in each of the four phases
+    nobs = 0
+    for k, c in enumerate(cases):
+        phases = [("channel in use", c["old"], "c07-firmware-deviates"),
+                  ("after the starting time of the first redefinition", c["a"], "c07-fw-freq-redefinition"),
+                  ("second redefinition stored, starting time not reached", c["a"], "c07-fw-freq-redefinition"),
+                  ("after the starting time of the second redefinition", c["b"], "c07-fw-freq-redefinition")]
+        nf = len(c["fns"])
+        ctx.nontrivial(("freq", c["old"][0], c["a"][0], c["b"][0],
+                        (len(c["a"][4]) > (len(c["old"][4]) if c["old"][0] else 0)) if c["a"][0] else None, c["diffs"][0] == 5))
+        got = c_res[k]
+        if len(got) != 8 * nf:
+            continue
+        for ph, (what, s, key) in enumerate(phases):
+            bad = False
+            for j, fn in enumerate(c["fns"]):
+                want = _set_want(s, fn)
+                obs = got[2 * (ph * nf + j):2 * (ph * nf + j) + 2]
+                nobs += 1
+                if obs != want:
+                    ctx.oracle_fail("firmware frequency redefinition (l1a_freq_req / l1s_freq_cmd, then rfch_get_params): %s the ARFCN / TSC "
+                                    "is not MA[MAI] of 45.002 6.2.3 for the parameters in force" % what,
+                                    dict(phase=ph, fn=fn, in_force=s, mai=None if s[0] == 0 else spec_mai(s[1], s[2], len(s[4]), fn),
+                                         old=c["old"], a=c["a"], b=c["b"], starting_time_diffs=c["diffs"], fn0=c["fn0"]),
+                                    key=key, expected=want, observed=obs)
+                    bad = True
+                    break
+            if bad:
+                break
+        if k % max(1, len(cases) // 3) == 0:
+            ctx.sample(dict(freq_redefinition=dict(old=c["old"], a=c["a"], fn=c["fns"][0], before=got[0:2], after=got[2 * nf:2 * nf + 2])))
+    ctx.evaluations += nobs
+    ctx.extra["freq_redefinition_cases"] = len(cases)
+    ctx.extra["freq_redefinition_observations"] = nobs
 
 
 def gen(ctx):
@@ -113,6 +252,7 @@ def run(ctx):
                             key="c07-python-deviates", expected=want, observed=py_res[k])
         if k % (len(cases) // 5) == 0:
             ctx.sample(dict(hsn=h, maio=m, fn=f, n=n, c=c_res[k], py=py_res[k], spec=want))
+    run_freq(ctx)
     # complete reduced domain (x = HSN xor T1R, T2, T3, N) on the C implementation
     maios = [0, 1, 63] if ctx.tier == "quick" else list(range(64))
     tot = 0
